@@ -202,9 +202,40 @@ class ReaderPath:
         return False
 
 
+def helpers_of(ctx, body):
+    """def paths that belong to `body`'s own code for a table / panic analysis: items nested in it (closures, inner fns)
+    and the crate's *private* helper functions it reaches (a parse helper moved out to module level or into a private
+    `mod detail`), but not the parsers of other types (FromStr / Deserialize / TryFrom impls) nor public functions"""
+    db, cg = ctx.db, ctx.cg
+    key = ("helpers", body.defp)
+    cache = ctx.__dict__.setdefault("_helpers_cache", {})
+    if key in cache:
+        return cache[key]
+    seen = {body.defp}
+    st = [body.defp]
+    while st:
+        d = st.pop()
+        for t in cg.edges.get(d, ()):
+            if t in seen:
+                continue
+            b = db.bodies.get(t)
+            if b is None:
+                continue
+            nested = t.startswith(body.defp + "::")
+            private_helper = b.kind != "Closure" and b.impl_trait is None and getattr(b, "vis", None) != "pub" \
+                and b.name not in ("from_str", "deserialize", "try_from", "new")
+            parent_in = b.kind == "Closure" and b.parent in seen
+            if nested or private_helper or parent_in:
+                seen.add(t)
+                st.append(t)
+    cache[key] = seen
+    return seen
+
+
 def reader_paths(ctx, body):
     w = ctx.walker(max_depth=4)
-    w.no_inline = lambda p, d=body.defp: not p.startswith(d + "::")
+    hs = helpers_of(ctx, body)
+    w.no_inline = lambda p, hs=hs: p not in hs
     out = []
     res = w.walk(body)
     for r in res:
@@ -214,11 +245,12 @@ def reader_paths(ctx, body):
     return out, res
 
 
-def str_and_char_consts(db, body):
-    """string literals and char constants mentioned by a body and its nested closures/fns (for list-structure rules)"""
+def str_and_char_consts(db, body, helpers=None):
+    """string literals and char constants mentioned by a body, its nested closures/fns and (when given) its private
+    helpers (for list-structure rules)"""
     strs, chars = set(), set()
     for d, b in db.bodies.items():
-        if d != body.defp and not d.startswith(body.defp + "::"):
+        if d != body.defp and not d.startswith(body.defp + "::") and not (helpers and d in helpers):
             continue
         for blk in b.blocks:
             ops = []
